@@ -234,6 +234,7 @@ def _mask_ili(o):
     for d in o['synsets'].values():
         if isinstance(d, dict) and d.get('ili') and d['ili'][0] is not None:
             d['ili'] = [d['ili'][0]]
+            d.pop('ili_inv_meta', None)
     import json
     o['ilis'] = sorted(([i[0]] if i and i[0] is not None else i for i in o['ilis']), key=lambda x: json.dumps(x, default=str))
     return o
